@@ -4,9 +4,8 @@
    with (kind, content, exec, target) nodes) in Model/Export42.v.
 
    filtered = false : a RevisionTree;  filtered = true : the ContentFilterTree that
-   `brz export --filters` wraps around it.  [filtered_ok] says the --filters path is
-   only used without per-file time stamps and without symlinks (it crashes otherwise:
-   C42_filters_refuted); for filtered = false it is vacuous. *)
+   `brz export --filters` wraps around it (content filters applied to file texts,
+   everything else delegated to the backing tree since cf2f70e). *)
 From Coq Require Import ZArith NArith List Bool String.
 From BV Require Import Lib.Bytes Lib.Obs Model.Eol Model.Export42 Theory.Export42.
 Import ListNotations.
@@ -14,35 +13,34 @@ Open Scope N_scope.
 
 (* _export_iter_entries (startswith / slicing on strings) selects exactly the entries the
    component-level specification selects, with the same relative paths, in the same order;
-   no hypothesis on the tree, the sub-directory or the flags *)
+   no hypothesis on the tree or the sub-directory *)
 Theorem C42_select_exact :
-  forall filtered sd es,
-    map lift (export_iter_entries filtered sd es)
-    = spec_select (negb filtered) (option_map splitc (norm_subdir sd)) (map abstract es).
+  forall sd es,
+    map lift (export_iter_entries sd es)
+    = spec_select true (option_map splitc (norm_subdir sd)) (map abstract es).
 Proof. exact select_exact. Qed.
 Print Assumptions C42_select_exact.
 
 (* tar, tgz, tbz2, txz, tlzma: the members handed to tarfile decode to exactly the selected
-   sub-tree under the root: same paths, kinds, contents, executable bits, symlink targets *)
+   sub-tree under the root: same paths, kinds, contents, executable bits, symlink targets;
+   with or without --filters, with or without per-file time stamps *)
 Theorem C42_entries_exact :
   forall filtered root sd force es,
-    wf_entries es = true -> filtered_ok filtered force es ->
-    exists items,
-      tarball_items filtered root sd force es = Ok items /\
-      map tar_decode items
-      = spec_export filtered (negb filtered) (root_comps root)
-                    (option_map splitc (norm_subdir sd)) (map abstract es).
+    wf_entries es = true ->
+    map tar_decode (tarball_items filtered root sd force es)
+    = spec_export filtered true (root_comps root)
+                  (option_map splitc (norm_subdir sd)) (map abstract es).
 Proof. exact tar_entries_exact. Qed.
 Print Assumptions C42_entries_exact.
 
 (* directory export: the same, directly below the destination (root is not used) *)
 Theorem C42_entries_exact_dir :
   forall filtered sd force pre es,
-    wf_entries es = true -> filtered_ok filtered force es -> pre <> DNonEmpty ->
+    wf_entries es = true -> pre <> DNonEmpty ->
     exists items,
       dir_items filtered sd force pre es = Ok items /\
       map dir_decode items
-      = spec_export filtered (negb filtered) [] (option_map splitc (norm_subdir sd)) (map abstract es).
+      = spec_export filtered true [] (option_map splitc (norm_subdir sd)) (map abstract es).
 Proof. exact dir_entries_exact. Qed.
 Print Assumptions C42_entries_exact_dir.
 
@@ -52,51 +50,39 @@ Theorem C42_dir_nonempty_refused :
 Proof. exact dir_nonempty_refused. Qed.
 Print Assumptions C42_dir_nonempty_refused.
 
-(* zip: exact only for trees without symlinks and without executable files ... *)
+(* zip: exact, executable bits included (repaired by 552504a), for trees without symlinks ... *)
 Theorem C42_entries_exact_zip_guarded :
   forall filtered root sd force es,
-    wf_entries es = true -> filtered_ok filtered force es -> zip_guard es ->
-    exists items,
-      zip_items filtered root sd force es = Ok items /\
-      map zip_decode items
-      = spec_export filtered (negb filtered) (root_comps root)
-                    (option_map splitc (norm_subdir sd)) (map abstract es).
+    wf_entries es = true -> zip_guard es ->
+    map zip_decode (zip_items filtered root sd force es)
+    = spec_export filtered true (root_comps root)
+                  (option_map splitc (norm_subdir sd)) (map abstract es).
 Proof. exact zip_entries_exact_guarded. Qed.
 Print Assumptions C42_entries_exact_zip_guarded.
 
-(* ... the full statement is FALSE for zip: the executable bit is dropped, *)
-Theorem C42_zip_exec_refuted :
-  exists es items, wf_entries es = true /\ NoDup (map e_path es) /\
-    zip_items false [82] None (Some 0%Z) es = Ok items /\
-    map zip_decode items <> spec_export false true (root_comps [82]) None (map abstract es).
-Proof. exact zip_exec_refuted. Qed.
-Print Assumptions C42_zip_exec_refuted.
-
-(* a symlink becomes a regular file NAME.lnk holding the target, *)
+(* ... the full statement is still FALSE for zip: a symlink becomes a regular file NAME.lnk
+   holding the target (known finding C42-zip-symlink-as-lnk), *)
 Theorem C42_zip_symlink_refuted :
-  exists es items, wf_entries es = true /\ NoDup (map e_path es) /\
-    zip_items false [82] None (Some 0%Z) es = Ok items /\
-    map zip_decode items <> spec_export false true (root_comps [82]) None (map abstract es).
+  exists es, wf_entries es = true /\ NoDup (map e_path es) /\
+    map zip_decode (zip_items false [82] None (Some 0%Z) es)
+    <> spec_export false true (root_comps [82]) None (map abstract es).
 Proof. exact zip_symlink_refuted. Qed.
 Print Assumptions C42_zip_symlink_refuted.
 
 (* and that name can collide with a versioned file NAME.lnk (two members, one name) *)
 Theorem C42_zip_root_prefix_injective_refuted :
-  exists es items, wf_entries es = true /\ NoDup (map e_path es) /\
-    zip_items false [82] None (Some 0%Z) es = Ok items /\ ~ NoDup (map z_name items).
+  exists es, wf_entries es = true /\ NoDup (map e_path es) /\
+    ~ NoDup (map z_name (zip_items false [82] None (Some 0%Z) es)).
 Proof. exact zip_names_collide_refuted. Qed.
 Print Assumptions C42_zip_root_prefix_injective_refuted.
 
-(* --filters: a symlink or per-file time stamps raise NotImplementedError, and control files
-   (names starting with .bzr) that the plain export excludes are exported *)
-Theorem C42_filters_refuted :
-  tarball_items true [82] None (Some 0%Z) w_link = Er NotImpl /\
-  tarball_items true [82] None None w_exec = Er NotImpl /\
-  (exists a b, tarball_items true [82] None (Some 0%Z) w_special = Ok a /\
-               tarball_items false [82] None (Some 0%Z) w_special = Ok b /\
-               map fst (map tar_decode a) <> map fst (map tar_decode b)).
-Proof. exact filtered_refuted. Qed.
-Print Assumptions C42_filters_refuted.
+(* --filters (repaired by cf2f70e) changes file contents only: the exported paths, kinds,
+   executable bits and symlink targets are those of the plain export *)
+Theorem C42_filters_only_change_content :
+  forall skip rootc sd ces,
+    map shape (spec_export true skip rootc sd ces) = map shape (spec_export false skip rootc sd ces).
+Proof. exact filters_only_change_content. Qed.
+Print Assumptions C42_filters_only_change_content.
 
 (* exporting a sub-directory exports exactly that sub-tree (as a tree of its own, where
    nothing is special any more) ... *)
@@ -136,10 +122,10 @@ Print Assumptions C42_subdir_special_empty.
 
 (* re-rooting is injective and every member lies under the root *)
 Theorem C42_root_prefix_injective :
-  forall filtered root sd force es items,
-    wf_entries es = true -> filtered_ok filtered force es -> NoDup (map e_path es) ->
+  forall filtered root sd force es,
+    wf_entries es = true -> NoDup (map e_path es) ->
     subdir_is_dir (option_map splitc (norm_subdir sd)) (map abstract es) ->
-    tarball_items filtered root sd force es = Ok items ->
+    let items := tarball_items filtered root sd force es in
     NoDup (map fst (map tar_decode items)) /\
     forall it, In it items -> exists rel, rel <> [] /\ fst (tar_decode it) = root_comps root ++ rel.
 Proof. exact tar_paths_injective. Qed.
@@ -172,16 +158,14 @@ Print Assumptions C42_root_name_no_ext.
 
 (* export(): format / root / forced time stamp selection *)
 Theorem C42_export_dispatch :
-  forall es format dest root sd pft rev_ts now pre,
+  forall es format dest root sd pft filtered rev_ts now pre,
     let f := match format with Some f => f | None => guess_format dest end in
-    export es format dest root sd pft false rev_ts now pre
+    export es format dest root sd pft filtered rev_ts now pre
     = match f with
-      | FDir => match dir_items false sd (eff_force pft false rev_ts now) pre es with
+      | FDir => match dir_items filtered sd (eff_force pft filtered rev_ts now) pre es with
                 | Ok l => Ok (OutDir l) | Er x => Er x end
-      | FZip => match zip_items false (eff_root root dest) sd (eff_force pft false rev_ts now) es with
-                | Ok l => Ok (OutZip l) | Er x => Er x end
-      | f => match tarball_items false (eff_root root dest) sd (eff_force pft false rev_ts now) es with
-             | Ok l => Ok (OutTar f l) | Er x => Er x end
+      | FZip => Ok (OutZip (zip_items filtered (eff_root root dest) sd (eff_force pft filtered rev_ts now) es))
+      | f => Ok (OutTar f (tarball_items filtered (eff_root root dest) sd (eff_force pft filtered rev_ts now) es))
       end.
 Proof. exact export_dispatch. Qed.
 Print Assumptions C42_export_dispatch.
